@@ -332,7 +332,7 @@ pub fn run(mut run: Run) -> ! {
     let quick = run.quick();
     let depth = if quick { 1 } else { 2 };
     let ncores = cores().len();
-    run.rule = format!("objectives min/max e with e = one of {ncores} cores (abs/min/max nests, logic values in arithmetic) in every chain of <= {depth} contexts from 12, over 7 declaration sets (real, non-negative, integer, asymmetric, and three unbounded or half-bounded ones) x 7 side-constraint sets (incl. a non-convex one, a logic assertion, and rows that need the exact value of a block the objective uses one-sidedly); plus objectives min/max of 14 cores over three variables with different ranges (three-operand min/max, nested blocks) in every context (thorough), with and without a coupling row; for every assignment of the discrete variables and every cell of the region partition of the continuous one the source objective f is affine, and two exact statements are decided: (i) no auxiliary extension of a source-feasible value has a better linear objective than f (one exact MILP per cell), (ii) every source-feasible value has an extension attaining f (interval-union coverage from exact projections); (iii) the whole source model (optimum over all cells, or unbounded along an outer ray of an unbounded declaration, or infeasible) and the whole linear model (exact MILP) have the same status and optimal value; distinct = model text; non-trivial = compiled with at least one auxiliary variable");
+    run.rule = format!("objectives min/max e with e = one of {ncores} cores (abs/min/max nests, logic values in arithmetic) in every chain of <= {depth} contexts from 13, over 7 declaration sets (real, non-negative, integer, asymmetric, and three unbounded or half-bounded ones) x 7 side-constraint sets (incl. a non-convex one, a logic assertion, and rows that need the exact value of a block the objective uses one-sidedly); plus objectives min/max of 14 cores over three variables with different ranges (three-operand min/max, nested blocks) in every context (thorough), with and without a coupling row; for every assignment of the discrete variables and every cell of the region partition of the continuous one the source objective f is affine, and two exact statements are decided: (i) no auxiliary extension of a source-feasible value has a better linear objective than f (one exact MILP per cell), (ii) every source-feasible value has an extension attaining f (interval-union coverage from exact projections); (iii) the whole source model (optimum over all cells, or unbounded along an outer ray of an unbounded declaration, or infeasible) and the whole linear model (exact MILP) have the same status and optimal value; distinct = model text; non-trivial = compiled with at least one auxiliary variable");
     run.assume("exact source semantics and exact MILP/LP on the linear model; the region partition (breakpoints of objective and constraints plus projection endpoints) makes f affine on each cell, which is self-checked at the cell midpoint");
     run.assume("models with non-dyadic constants, or whose continuous variable occurs under a logic operator, are skipped and counted");
     let n = family_size(depth, quick);
